@@ -10,6 +10,8 @@
 //   w <how> <sec> <usec> <hex> | <annotation>     how = raw (RawPDU around the bytes) | pdu:<Class> (parsed first)
 //        written through PacketWriter::write(Packet&) with Timestamp(timeval{sec,usec})
 //   close                          destroys the writer, reports size / hash / header fields of the file
+//   rotate                         `writer = PacketWriter(other_path, lt)` (move assignment onto the live writer, the
+//                                  usual way to start the next file): the first file must be complete and nothing leak
 //   chop <k>                       truncates the file by k bytes
 //   read k=v ...                   api=next|loop|iter  filt=none|empty|cfg|ctor|post  raw=0|1  src=name|fp
 //                                  max=<n> stop=<k> thr=<i>:<mal|nf>,...  cb=packet|pdu   f=<filter text to end of line>
@@ -31,6 +33,7 @@
 #include <memory>
 #include <unistd.h>
 #include <sys/stat.h>
+#include <sanitizer/lsan_interface.h>
 
 using namespace Tins;
 using namespace vh;
@@ -497,7 +500,10 @@ int main(int argc, char** argv) {
                 unlink(c.path.c_str());
                 c.lt = w[1];
                 c.method = w[2];
-                c.writer.reset(make_writer(c.path, w[1]));
+                // every writer goes through the move constructor once (the moved-from one is destroyed right away)
+                std::unique_ptr<PacketWriter> first(make_writer(c.path, w[1]));
+                c.writer.reset(new PacketWriter(std::move(*first)));
+                first.reset();
                 return "file ok";
             }
             if (w[0] == "w" && w.size() >= 5) {
@@ -519,6 +525,24 @@ int main(int argc, char** argv) {
                 std::ostringstream o;
                 o << "close size=" << f.size() << " fnv=" << fnv(f);
                 if (f.size() >= 24) o << " snaplen=" << le32(f, 16) << " linktype=" << le32(f, 20);
+                return o.str();
+            }
+            if (w[0] == "rotate") {
+                if (!c.writer) return "rotate nowriter";
+                std::string other = c.path + ".b";
+                {
+                    std::unique_ptr<PacketWriter> next(make_writer(other, c.lt));
+                    *c.writer = std::move(*next);
+                }
+                int leak = __lsan_do_recoverable_leak_check();
+                bytes f;
+                if (!read_file(c.path, f)) return "rotate nofile";
+                std::ostringstream o;
+                o << "rotate size=" << f.size() << " fnv=" << fnv(f);
+                if (f.size() >= 24) o << " snaplen=" << le32(f, 16) << " linktype=" << le32(f, 20);
+                o << " leak=" << (leak ? 1 : 0);
+                c.writer.reset();
+                unlink(other.c_str());
                 return o.str();
             }
             if (w[0] == "chop" && w.size() >= 2) {
